@@ -19,7 +19,7 @@ if os.path.exists(out):
     for l in open(out):
         r = json.loads(l); done.add((r["file"], r["start"], r["end"], r["repl"]))
 surv = [r for r in surv if (r["file"], r["start"], r["end"], r["repl"]) not in done]
-base = "/tmp/mutcov_t"
+base = f"/tmp/mutcov_t{os.getpid()}"
 shutil.rmtree(base, ignore_errors=True); os.makedirs(base)
 slots = queue.Queue()
 env = dict(os.environ, GOFLAGS="-mod=mod", GOPROXY="off", GOSUMDB="off", GOTOOLCHAIN="local")
@@ -47,7 +47,7 @@ def run(m):
             open(p, "wb").write(orig[:m["start"]] + m["repl"].encode() + orig[m["end"]:])
             pkgs = DEPS.get(os.path.dirname(m["file"]), ["./..."])
             try:
-                r = subprocess.run(["go", "test", "-vet=off", "-count=1", "-timeout", f"{tmo}s"] + pkgs, cwd=d, env=env, capture_output=True, text=True, timeout=tmo + 60)
+                r = subprocess.run(["go", "test", "-vet=off", "-count=1", "-skip", "TestBenchmarkSize", "-timeout", f"{tmo}s"] + pkgs, cwd=d, env=env, capture_output=True, text=True, timeout=tmo + 60)
                 st = "tests-pass" if r.returncode == 0 else "tests-fail"
             except subprocess.TimeoutExpired:
                 st = "tests-timeout"
